@@ -14,3 +14,6 @@ func c19App() *band.BandApp { return new(band.BandApp) }
 func c19VerificationOf(bz []byte) types.RequestVerification { panic("intrinsic") }
 func c19Mark()                                             {}
 func c19Settle()                                           { panic("intrinsic") }
+
+// c19Run: the engine reports a deadlock of the step by itself.
+func c19Run(step func()) { step() }
